@@ -60,6 +60,8 @@ class MySQLModel(data_algebra.db_model.DBModel):
     Assuming we are using a sqlalchemy engine as our connection.
     """
 
+    string_backslash_escapes = True
+
     def __init__(self):
         op_replacements = data_algebra.sql_model.db_default_op_replacements.copy()
         op_replacements["std"] = "STDDEV_SAMP"
